@@ -39,7 +39,13 @@ pub fn run(_sh: &Shell, cl: &CommandLine, cmd: &Command,
         for cap in re_name_ptn.captures_iter(text) {
             let name = cap[1].to_string();
             let token = parsers::parser_line::unquote(&cap[2]);
-            let value = libs::path::expand_home(&token);
+            // `~` is the home directory only where an unquoted value begins
+            // with it; inside a quoted value it is an ordinary character
+            let value = if token == cap[2] && token.starts_with('~') {
+                libs::path::expand_home(&token)
+            } else {
+                token
+            };
             env::set_var(name, &value);
         }
     }
